@@ -16,8 +16,10 @@ Dot3(a, b) == a[1] * b[1] + a[2] * b[2] + a[3] * b[3]
 Cross3(a, b) == <<a[2] * b[3] - a[3] * b[2], a[3] * b[1] - a[1] * b[3], a[1] * b[2] - a[2] * b[1]>>
 Pos(pos, i) == pos[i + 1]
 D2(pos, i, j) == LET d == Sub3(Pos(pos, i), Pos(pos, j)) IN Dot3(d, d)
-RECURSIVE ISqrt(_, _)
-ISqrt(n, g) == IF g * g >= n THEN g ELSE ISqrt(n, g + 1)
+\* integer square root by Newton's iteration (floor; LatticeOK below requires every squared segment length to be a perfect square)
+RECURSIVE Newton(_, _)
+Newton(n, x) == LET y == (x + n \div x) \div 2 IN IF y >= x THEN x ELSE Newton(n, y)
+ISqrt(n, g) == IF n = 0 THEN 0 ELSE Newton(n, n)
 ELen(P, pos, i) == ISqrt(D2(pos, i, Par(P, i)), 0)                       \* length of the segment into node i (an integer by construction)
 LatticeOK(P, pos) == \A i \in Nodes(P) \ {0} : LET l == ELen(P, pos, i) IN l * l = D2(pos, i, Par(P, i))
 TreeLength(P, pos) == SumOver(Nodes(P) \ {0}, [i \in Nodes(P) \ {0} |-> ELen(P, pos, i)])
@@ -55,6 +57,19 @@ PrevCritical(P, b) == BTParent(P, b)
 TorqueLocal(P, pos, b)  == Ang(Cross3(VLocal(P, pos, PrevCritical(P, b), 1), VLocal(P, pos, PrevCritical(P, b), 2)), Cross3(VLocal(P, pos, b, 1), VLocal(P, pos, b, 2)))
 TorqueRemote(P, pos, b) == Ang(Cross3(VRemote(P, pos, PrevCritical(P, b), 1), VRemote(P, pos, PrevCritical(P, b), 2)), Cross3(VRemote(P, pos, b, 1), VRemote(P, pos, b, 2)))
 Bifs(P) == { i \in Nodes(P) : Cardinality(Kids(P, i)) = 2 }
+
+\* ---- a long stem in front of a tree (path distances of 2 * 10^5 lattice units before the first branch point): lengths only -------------------
+\* the stem walks StemN times along the edges of a cube of side StemK (coordinates stay small, path distance grows), then one unit step leads to the tree's root
+StemN == 20
+StemK == 10000
+CubeWalk == << <<0, 0, 0>>, <<1, 0, 0>>, <<1, 1, 0>>, <<0, 1, 0>>, <<0, 1, 1>>, <<1, 1, 1>>, <<1, 0, 1>>, <<0, 0, 1>> >>
+StemAt(j) == LET g == CubeWalk[(j % 8) + 1] IN <<StemK * g[1], StemK * g[2], StemK * g[3]>>                       \* stem node j, j = 0 .. StemN
+StemP(P)  == [k \in 1 .. StemN + 1 + Len(P) |-> IF k = 1 THEN -1 ELSE IF k <= StemN + 1 THEN k - 2
+                                                 ELSE IF P[k - StemN - 1] = -1 THEN StemN ELSE P[k - StemN - 1] + StemN + 1]
+StemPos(P, pos) == [k \in 1 .. StemN + 1 + Len(P) |-> IF k <= StemN + 1 THEN StemAt(k - 1)
+                                                       ELSE LET e == StemAt(StemN)  q == pos[k - StemN - 1] IN <<e[1] + 1 + q[1], e[2] + q[2], e[3] + q[3]>>]
+\* obs = length * 1000: two units, or two millionths of a long length (single-precision sums)
+CloseL(obs, exp) == Abs(obs - exp * 1000) <= 2 + exp \div 500
 
 \* ---- comparing observed floats (quantised) with the exact forms ----
 \* obs = value * 1000 (already divided by the scale factor): integer expected value
